@@ -174,6 +174,86 @@ def scan_mutations(root: Path, rel_prefix: str, subdirs):
     return sorted(set(out)), readers
 
 
+NS_ATTRS = {"f_locals", "f_globals", "f_builtins", "__dict__", "__globals__"}
+SESSION_ROOTS = {"ENGINE", "DEF_STORE"}
+
+
+def _chain_attrs(e):
+    out = []
+    while isinstance(e, (ast.Attribute, ast.Subscript, ast.Call)):
+        if isinstance(e, ast.Attribute):
+            out.append(e.attr)
+            e = e.value
+        elif isinstance(e, ast.Subscript):
+            e = e.value
+        else:
+            e = e.func
+    return out, (e.id if isinstance(e, ast.Name) else None)
+
+
+def scan_session_writes(root: Path, rel_prefix: str):
+    """Every place that writes session-global state from outside its owner: stores into a frame
+    namespace (`x.f_locals[...] = ...`, `f.__globals__.update(...)`), stores / mutating calls on
+    attributes of the ENGINE and DEF_STORE singletons, and calls of DEF_STORE.register_*."""
+    out = []
+    for p in sorted(root.rglob("*.py")):
+        rel = rel_prefix + "/" + p.relative_to(root).as_posix()
+        tree = ast.parse(p.read_text())
+        for fn in ast.walk(tree):
+            if not isinstance(fn, (ast.FunctionDef, ast.AsyncFunctionDef)):
+                continue
+            for sub in ast.walk(fn):
+                tg = []
+                if isinstance(sub, ast.Assign):
+                    tg = sub.targets
+                elif isinstance(sub, (ast.AugAssign, ast.AnnAssign)):
+                    tg = [sub.target]
+                elif isinstance(sub, ast.Delete):
+                    tg = sub.targets
+                for t in tg:
+                    if isinstance(t, (ast.Subscript, ast.Attribute)):
+                        attrs, rt = _chain_attrs(t)
+                        inner = attrs[1:] if isinstance(t, ast.Attribute) else attrs
+                        if (set(inner) & NS_ATTRS) or rt in SESSION_ROOTS:
+                            out.append(f"{rel}:{fn.name}:{ast.unparse(t)}=")
+                if isinstance(sub, ast.Call) and isinstance(sub.func, ast.Attribute):
+                    attrs, rt = _chain_attrs(sub.func.value)
+                    m = sub.func.attr
+                    if m in MUT_METHODS and ((set(attrs) & NS_ATTRS) or (rt in SESSION_ROOTS and attrs)):
+                        out.append(f"{rel}:{fn.name}:{ast.unparse(sub.func)}()")
+                    if rt in SESSION_ROOTS and not attrs and m.startswith("register"):
+                        out.append(f"{rel}:{fn.name}:{rt}.{m}()")
+    return sorted(set(out))
+
+
+def nested_def_scoping(path: Path):
+    """check_nested_func_def: does it write the nested definition into the frame namespace
+    (`globals.f_locals[name] = ...`: the binding outlives the check) or into a copy?"""
+    tree = ast.parse(path.read_text())
+    fn = [n for n in tree.body if isinstance(n, ast.FunctionDef) and n.name == "check_nested_func_def"]
+    if len(fn) != 1:
+        raise TranslatorError("func_checker.py: check_nested_func_def missing")
+    leaks = copies = 0
+    for sub in ast.walk(fn[0]):
+        if isinstance(sub, ast.Assign):
+            for t in sub.targets:
+                src = ast.unparse(t)
+                if isinstance(t, ast.Subscript) and ".f_locals" in src:
+                    leaks += 1
+                if src == "globals.f_locals" and isinstance(sub.value, ast.Dict):
+                    copies += 1
+                if src == "globals" and ast.unparse(sub.value) == "copy.copy(globals)":
+                    copies += 1
+        if isinstance(sub, ast.Call) and isinstance(sub.func, ast.Attribute) and sub.func.attr in MUT_METHODS \
+                and ".f_locals" in ast.unparse(sub.func.value) + ".":
+            leaks += 1
+    if leaks:
+        return True
+    if copies == 2:
+        return False
+    raise TranslatorError("func_checker.py: check_nested_func_def binds the nested name in an unknown way")
+
+
 def cfg_compiler(path: Path):
     tree = ast.parse(path.read_text())
     fns = {n.name: n for n in tree.body if isinstance(n, ast.FunctionDef)}
@@ -253,9 +333,12 @@ def inventory(repo: Path):
         rd.append(f"{rel}:{fn}")
     guard, order = cfg_compiler(int_root / "compiler/cfg_compiler.py")
     fin = tracing_state(int_root / "tracing/state.py")
+    writes = scan_session_writes(int_root, "internals") + scan_session_writes(pub_root, "guppylang")
+    nested_leak = nested_def_scoping(int_root / "checker/func_checker.py")
     return dict(engine_fields=fields, reset_fields=reset_fields, check_resets_first=check_first,
                 compile_checks_first=compile_first, global_state=glob, mutation_sites=muts,
-                input_tys_mentions=sorted(rd), guard_present=guard, has_finally=fin, order=order)
+                input_tys_mentions=sorted(rd), guard_present=guard, has_finally=fin, order=order,
+                session_write_sites=writes, nested_writes_namespace=nested_leak)
 
 
 def translate(repo: Path) -> str:
@@ -273,6 +356,8 @@ def translate(repo: Path) -> str:
         f"Definition global_state : list string := {coq_list(inv['global_state'])}.",
         f"Definition mutation_sites : list string := {coq_list(inv['mutation_sites'])}.",
         f"Definition input_tys_mentions : list string := {coq_list(inv['input_tys_mentions'])}.",
+        f"Definition session_write_sites : list string := {coq_list(inv['session_write_sites'])}.",
+        f"Definition nested_writes_namespace : bool := {b(inv['nested_writes_namespace'])}.",
         f"Definition guard_present : bool := {b(inv['guard_present'])}.",
         f"Definition set_tracing_state_has_finally : bool := {b(inv['has_finally'])}.",
         f"Definition compare_var_name_order : name -> name -> comparison := {inv['order']}.",
